@@ -1,2 +1,78 @@
-(* Properties_C19.v -- placeholder, theorems follow *)
-From TP Require Import Term.
+(* Properties_C19.v — C19: 256-colour indices are a bijection onto their palette
+   ranges.  Over the COMPLETE graphs of the real ansi::graphics functions and
+   colour constructors (Generated.v), plus the general arithmetic statement on
+   the model and the SGR parameter put on the wire. *)
+From TP Require Import Base Elem Term Screen VT Generated Tie_Colour P_Diff.
+From Coq Require Import ZArith Lia ZifyBool ZifyN.
+Local Open Scope N_scope.
+
+Definition real_high (r g b : N) : N := nth (N.to_nat (r * 36 + g * 6 + b)) g_encode_high_216 0.
+Definition real_high_ctor (r g b : N) : N := nth (N.to_nat (r * 36 + g * 6 + b)) g_high_colour_ctor_216 0.
+Definition real_red (v : N) := nth (N.to_nat v) g_high_red 0.
+Definition real_green (v : N) := nth (N.to_nat v) g_high_green 0.
+Definition real_blue (v : N) := nth (N.to_nat v) g_high_blue 0.
+Definition real_grey (s : N) := nth (N.to_nat s) g_encode_grey 0.
+Definition real_grey_ctor (s : N) := nth (N.to_nat s) g_greyscale_ctor 0.
+Definition real_grey_component (v : N) := nth (N.to_nat v) g_grey_component 0.
+
+(* every high colour built from r, g, b in 0..5 has index 16 + 36r + 6g + b,
+   within 16..231, and the components recovered from the index are the
+   original ones (hence distinct triples give distinct indices) *)
+Theorem C19_high_colours :
+  forallb (fun t => let '(r, g, b) := t in
+     (real_high r g b =? 16 + 36 * r + 6 * g + b) && (real_high_ctor r g b =? real_high r g b) &&
+     (16 <=? real_high r g b) && (real_high r g b <=? 231) &&
+     (real_red (real_high r g b) =? r) && (real_green (real_high r g b) =? g) &&
+     (real_blue (real_high r g b) =? b)) triples = true /\
+  length triples = 216%nat.
+Proof. vm_compute. split; reflexivity. Qed.
+Print Assumptions C19_high_colours.
+
+Theorem C19_greyscale :
+  forallb (fun s => (real_grey s =? 232 + s) && (real_grey_ctor s =? 232 + s) &&
+                    (real_grey_component (real_grey s) =? s)) (Nseq 0 24) = true.
+Proof. vm_compute. reflexivity. Qed.
+Print Assumptions C19_greyscale.
+
+(* the same as arithmetic, for the model function, for all N (not a sweep) *)
+Theorem C19_arithmetic :
+  forall r g b, r <= 5 -> g <= 5 -> b <= 5 ->
+    encode_high r g b = 16 + 36 * r + 6 * g + b /\
+    16 <= encode_high r g b <= 231 /\
+    high_red (encode_high r g b) = r /\ high_green (encode_high r g b) = g /\
+    high_blue (encode_high r g b) = b.
+Proof.
+  intros r g b Hr Hg Hb.
+  assert (E : encode_high r g b = 16 + 36 * r + 6 * g + b).
+  { unfold encode_high, wrap8. rewrite N.mod_small; lia. }
+  rewrite E. unfold high_red, high_green, high_blue, wrap8.
+  assert ((16 <=? 16 + 36 * r + 6 * g + b) = true) as -> by lia.
+  replace (16 + 36 * r + 6 * g + b - 16) with (r * 36 + (g * 6 + b)) by lia.
+  repeat split; try lia.
+Qed.
+Print Assumptions C19_arithmetic.
+
+Theorem C19_injective :
+  forall r g b r' g' b', r <= 5 -> g <= 5 -> b <= 5 -> r' <= 5 -> g' <= 5 -> b' <= 5 ->
+    encode_high r g b = encode_high r' g' b' -> r = r' /\ g = g' /\ b = b'.
+Proof.
+  intros r g b r' g' b' Hr Hg Hb Hr' Hg' Hb' E.
+  destruct (C19_arithmetic r g b Hr Hg Hb) as (_ & _ & R & G & B).
+  destruct (C19_arithmetic r' g' b' Hr' Hg' Hb') as (_ & _ & R' & G' & B').
+  rewrite E in R, G, B. repeat split; congruence.
+Qed.
+Print Assumptions C19_injective.
+
+(* the index transmitted for such a colour, as foreground and as background,
+   is that palette index: SGR 38;5;n / 48;5;n, which the reference terminal
+   reads as palette entry n *)
+Theorem C19_wire :
+  forall n s,
+    change_colour 30 s (CHigh n) = (if colour_eqb s (CHigh n) then [] else [38; 5; n]) /\
+    change_colour 40 s (CHigh n) = (if colour_eqb s (CHigh n) then [] else [48; 5; n]) /\
+    change_colour 30 s (CGrey n) = (if colour_eqb s (CGrey n) then [] else [38; 5; n]) /\
+    change_colour 40 s (CGrey n) = (if colour_eqb s (CGrey n) then [] else [48; 5; n]) /\
+    (forall r t, apply_sgr r ([38; 5; n] ++ t) = apply_sgr (set_r_fg r (VIdx n)) t) /\
+    (forall r t, apply_sgr r ([48; 5; n] ++ t) = apply_sgr (set_r_bg r (VIdx n)) t).
+Proof. intros n s. unfold change_colour. repeat split. Qed.
+Print Assumptions C19_wire.
